@@ -14,7 +14,8 @@
 //           q  image(W,H,A) then a SEQUENCE of recreate calls: (W2,H2,A2) followed by the calls of a 13th word
 //              `w,h,a/w,h,a/...` (`-` = none); call number i uses overload i mod 4 of
 //              recreate(w,h,a) / recreate(w,h,pixel,a) / recreate(w,h,a,alloc) / recreate(w,h,pixel,a,alloc)
-//     then every pixel of view(img) and of the view derived by <xforms> (U L T R C I S<sx>,<sy> B<x0>,<y0>,<w>,<h>) is
+//     then every pixel of view(img) and of the view derived by <xforms> (U L T R C I S<sx>,<sy> B<x0>,<y0>,<w>,<h>, and for
+//     homogeneous byte-addressed kinds N<n> = nth_channel_view(., n), K<k> = kth_channel_view<k>, anywhere in the list) is
 //     read and written back through view(x,y), row_begin(y)[x], begin()[i]; fill_pixels / copy_pixels / for_each_pixel run on it
 //   -> n nalloc off fmod row w h lo hi | dw dh dlo dhi | ok        (or `... segv:<byte offset from the allocation start>`)
 //        n      bytes requested from the allocator for the storage in use;  nalloc  number of allocations made by the op
@@ -22,6 +23,9 @@
 //        row    row size (memory units);  lo/hi  smallest pixel address / largest pixel end over all pixels (memory units, all planes)
 //   buf <kind> <W> <H> <PAD> <mode>   interleaved_view / planar_rgb_view over a caller buffer of exactly H*rowbytes
 //   -> rowbytes lo hi | ok
+//   pbuf <kind pl8|pl16> <W> <H> <PAD> <mode> <xforms>   planar_rgb_view over ONE caller buffer of exactly 3*H*rowbytes (planes H*rowbytes apart),
+//                                                        then the derived view as for img
+//   -> rowbytes lo hi | dw dh dlo dhi | ok
 #include <boost/gil.hpp>
 #include "harness.hpp"
 #include <sys/mman.h>
@@ -133,6 +137,10 @@ struct Touch {        // read + write back every pixel through several access pa
         }
     }
 };
+// channel views exist for basic (memory based) views of homogeneous pixels
+template <class P> struct is_homog_pixel : std::false_type {};
+template <class T, class L> struct is_homog_pixel<gil::pixel<T, L>> : std::true_type {};
+template <class V> constexpr bool can_chan = gil::view_is_basic<V>::value && is_homog_pixel<typename V::value_type>::value;
 template <class V> void walk(V const& v, std::vector<Xf> const& xs, size_t i, Touch& f) {
     if (i == xs.size()) { f(v); return; }
     Xf const& t = xs[i];
@@ -145,6 +153,17 @@ template <class V> void walk(V const& v, std::vector<Xf> const& xs, size_t i, To
     case 'I': walk(gil::rotated180_view(v), xs, i + 1, f); break;
     case 'S': walk(gil::subsampled_view(v, t.a[0], t.a[1]), xs, i + 1, f); break;
     case 'B': walk(gil::subimage_view(v, t.a[0], t.a[1], t.a[2], t.a[3]), xs, i + 1, f); break;
+    case 'N':     // nth_channel_view(v, n): single-channel view of channel n (the walk continues on it)
+        if constexpr (can_chan<V>) walk(gil::nth_channel_view(v, (int)t.a[0]), xs, i + 1, f);
+        break;
+    case 'K':     // kth_channel_view<k>(v)
+        if constexpr (can_chan<V>) {
+            constexpr int NC = gil::num_channels<V>::value;
+            if (t.a[0] == 0) walk(gil::kth_channel_view<0>(v), xs, i + 1, f);
+            if constexpr (NC > 1) { if (t.a[0] == 1) walk(gil::kth_channel_view<1>(v), xs, i + 1, f); }
+            if constexpr (NC > 2) { if (t.a[0] == 2) walk(gil::kth_channel_view<2>(v), xs, i + 1, f); }
+        }
+        break;
     default: break;
     }
 }
@@ -226,6 +245,25 @@ template <class Pixel> std::string buf_op(std::vector<std::string> const& w) {
     return out + "ok";
 }
 
+template <class T> std::string pbuf_op(std::vector<std::string> const& w) {
+    long W = hv::to_ll(w[2]), H = hv::to_ll(w[3]), PAD = hv::to_ll(w[4]);
+    g_mode = (int)hv::to_ll(w[5]); g_R = 0; g_gran = alignof(T);
+    auto xs = parse_xf(w[6]);
+    for (auto& s : g_slots) if (s.live) { munmap(s.data - 4096, DATA + 8192); s.live = false; }
+    std::string out;
+    long row = W * (long)sizeof(T) + PAD; unsigned long n = (unsigned long)(3 * row * H);
+    if (sigsetjmp(g_env, 1) != 0) return out + "segv:" + std::to_string(g_fault);
+    unsigned char* mem = n ? guard_allocate(n) : nullptr;
+    ORG = mem; g_cur_ptr = mem;
+    put(out, row);
+    if (!n) { out += "0 0 | 0 0 0 0 | "; return out + "ok"; }
+    auto v = gil::planar_rgb_view(W, H, (T*)mem, (T*)(mem + row * H), (T*)(mem + 2 * row * H), row);
+    Touch t; t(v); put(out, t.lo); put(out, t.hi); out += "| ";
+    Touch t1; walk(v, xs, 0, t1); put(out, t1.w); put(out, t1.h); put(out, t1.lo); put(out, t1.hi); out += "| ";
+    guard_deallocate(mem);
+    return out + "ok";
+}
+
 using p565_t = gil::packed_image3_type<std::uint16_t, 5, 6, 5, gil::rgb_layout_t>::type::value_type;
 using dev5_t = gil::pixel<std::uint8_t, gil::devicen_layout_t<5>>;
 template <class Img> struct bitpix { using type = typename Img::value_type; };
@@ -275,6 +313,13 @@ int main() {
 #endif
             return "bad-kind";
         }
+#if KGROUP == 0 || KGROUP == 4
+        if (w.size() == 7 && w[0] == "pbuf") {
+            if (w[1] == "pl8") return pbuf_op<std::uint8_t>(w);
+            if (w[1] == "pl16") return pbuf_op<std::uint16_t>(w);
+            return "bad-kind";
+        }
+#endif
         if (w.size() == 6 && w[0] == "buf") {
             std::string const& k = w[1];
 #if KGROUP == 0 || KGROUP == 1
